@@ -1,0 +1,16 @@
+//go:build verif
+
+// Specification helpers for the contracts in zz_contracts_verif.go; compiled
+// only under the verif build tag.
+
+package webp
+
+import "image"
+
+// specBoundsSane: the image's bounds are within what Encode accepts
+// (MaxDimension); Encode establishes this before it looks at any pixel.
+func specBoundsSane(img image.Image) bool {
+	b := img.Bounds()
+	return b.Min.X <= b.Max.X && b.Min.Y <= b.Max.Y && b.Dx() <= MaxDimension && b.Dy() <= MaxDimension &&
+		b.Min.X >= -(1<<30) && b.Min.Y >= -(1<<30) && b.Max.X <= 1<<30 && b.Max.Y <= 1<<30
+}
